@@ -41,6 +41,7 @@ func runC16(c *Ctx) {
 	ruleClientParse(c)
 	ruleClientDeadlinesPaired(c)
 	ruleNoCommandWhileDataOpen(c)
+	ruleParserCursor(c) // "exactly the sender given": the client always appends parameters (BODY=8BITMIME), so the null sender of a bounce arrives as "<> BODY=…" and must be taken as a prefix
 	ruleEnhDefault(c) // every line of the verdict carries the same (possibly defaulted) enhanced code
 
 	R.Rule("R-data-writer", "E4 value flow", "Data/LMTPData return a dataCloser around c.text.DotWriter() obtained on the nil-error edge of the DATA command expecting 354", 4)
